@@ -93,6 +93,17 @@ func runEntry(entry string, b []byte) (res string) {
 			return describeErr(err)
 		}
 		return describeErr(root.Check())
+	case "SI":
+		// the text is a type that another registered type inherits from (allOf): what Check() reports about an inherited
+		// member refers to the text the member was written in
+		root := jschema.New("schema", "@a")
+		if err := root.AddType("@a", jschema.New("@a", "{ // {allOf: \"@b\"}\n}")); err != nil {
+			return describeErr(err)
+		}
+		if err := root.AddType("@b", jschema.New("@b", c)); err != nil {
+			return describeErr(err)
+		}
+		return describeErr(root.Check())
 	}
 	return "badcase"
 }
